@@ -1,6 +1,7 @@
 """C02 -- bead calibration end to end yields the true RFI-to-MEF conversion."""
 import math
 import os
+import warnings
 
 import numpy as np
 from hypothesis import strategies as st
@@ -346,6 +347,43 @@ def check(case, obs):
         okd = not raised(outd) and all(np.array_equal(np.asarray(a), np.asarray(b))
                                        for a, b in zip(outd.fitting['beads_params'], out.fitting['beads_params']))
         obs.claim('spelling', okd, lambda: 'bare channel %r with default clustering channels: %r' % (chans[0], outd if raised(outd) else 'another result'))
+    # ---- asking for the diagnostic figures as well changes nothing in what is reported (same data, same seed)
+    if case['np_seed'] % 8 == 5:
+        import matplotlib
+        matplotlib.use('Agg')
+        import matplotlib.pyplot as plt
+        import shutil
+        from pbt.runner import workdir
+        pdir = os.path.join(workdir(), 'c02plots')
+        shutil.rmtree(pdir, ignore_errors=True)
+        os.makedirs(pdir)
+        np.random.seed(case['np_seed'])
+        with warnings.catch_warnings():
+            warnings.simplefilter('ignore')
+            outf = call(mef.get_transform_fxn, d, mef_values if nch > 1 else mef_values[0], chans if nch > 1 else chans[0],
+                        clustering_channels=clustering_channels, statistic_fxn=stat, full_output=True, plot=True,
+                        plot_dir=pdir, plot_filename='beads')
+        plt.close('all')
+        obs.label('with_figures')
+
+        def same(a, b):
+            a, b = np.asarray(a, dtype=float), np.asarray(b, dtype=float)
+            return a.shape == b.shape and np.array_equal(a, b, equal_nan=True)
+        okf = not raised(outf)
+        diff = []
+        if okf:
+            if not np.array_equal(np.asarray(outf.clustering['labels']), lab):
+                diff.append('labels')
+            for c in range(nch):
+                for what, a, b in (('statistic', outf.statistic['values'][c], out.statistic['values'][c]),
+                                   ('selected rfi', outf.selection['rfi'][c], out.selection['rfi'][c]),
+                                   ('selected mef', outf.selection['mef'][c], out.selection['mef'][c]),
+                                   ('beads_params', outf.fitting['beads_params'][c], out.fitting['beads_params'][c])):
+                    if not same(a, b):
+                        diff.append('%s of %s: %r vs %r' % (what, chans[c], np.asarray(a).tolist(), np.asarray(b).tolist()))
+        obs.claim('seed', okf and not diff, lambda: 'with plot=True the reported results differ from the run without figures: %r' % (
+            outf if raised(outf) else diff[:3],))
+        shutil.rmtree(pdir, ignore_errors=True)
     # ---- channels given by position instead of by name (same data, same seed): the same calibration
     if case['np_seed'] % 3 == 0:
         pos = [2 + c for c in range(nch)]
